@@ -584,6 +584,9 @@ func (c *Client) blocks(ctx context.Context, url string, start, limit uint64) ([
 			const tag = "eth_getBlockByNumber"
 			return nil, fmt.Errorf("rpc=%s %w", tag, resps[i].Error)
 		}
+		if resps[i].Block == nil {
+			return nil, fmt.Errorf("rpc=eth_getBlockByNumber missing result for %d", start+uint64(i))
+		}
 	}
 	slog.DebugContext(ctx, "http-get-blocks", "elapsed", time.Since(t0))
 	return blocks, validate("blocks", start, limit, blocks)
@@ -601,6 +604,16 @@ func validate(caller string, start, limit uint64, blocks []eth.Block) error {
 	if uint64(last) != start+limit-1 {
 		const tag = "%s: rpc response contains invalid data. requested last: %d got: %d"
 		return fmt.Errorf(tag, caller, start+limit-1, last)
+	}
+	if uint64(len(blocks)) != limit {
+		const tag = "%s: rpc response contains invalid data. requested %d blocks got: %d"
+		return fmt.Errorf(tag, caller, limit, len(blocks))
+	}
+	for i := range blocks {
+		if blocks[i].Num() != start+uint64(i) {
+			const tag = "%s: rpc response contains invalid data. requested: %d got: %d"
+			return fmt.Errorf(tag, caller, start+uint64(i), blocks[i].Num())
+		}
 	}
 	for i := 1; i < len(blocks); i++ {
 		prev, curr := blocks[i-1], blocks[i]
@@ -647,6 +660,9 @@ func (c *Client) headers(ctx context.Context, url string, start, limit uint64) (
 		if resps[i].Error.Exists() {
 			const tag = "eth_getBlockByNumber/headers"
 			return nil, fmt.Errorf("rpc=%s %w", tag, resps[i].Error)
+		}
+		if resps[i].Header == nil {
+			return nil, fmt.Errorf("rpc=eth_getBlockByNumber/headers missing result for %d", start+uint64(i))
 		}
 	}
 	slog.DebugContext(ctx, "http-get-headers", "elapsed", time.Since(t0))
